@@ -416,8 +416,14 @@ impl Cli {
         }
         std::fs::write(&input, &conf.data).unwrap();
         let mut args: Vec<String> = vec!["compress".into()];
+        // "fifo": the input is named with -i but is not a regular file (a named pipe, as with process substitution or a device)
+        let fifo = format!("{}/in_{}.fifo", self.dir, tag);
         if delivery == "file" {
             args.extend(["-i".into(), input.clone()]);
+        } else if delivery == "fifo" {
+            let _ = std::fs::remove_file(&fifo);
+            assert!(Command::new("mkfifo").arg(&fifo).status().expect("mkfifo").success());
+            args.extend(["-i".into(), fifo.clone()]);
         }
         if existing == "longer" || existing == "shorter" {
             args.push("--force-create".into());
@@ -472,7 +478,45 @@ impl Cli {
             });
             let _ = t.join();
         }
+        let fifo_writer = if delivery == "fifo" {
+            let data = conf.data.clone();
+            let path = fifo.clone();
+            Some(std::thread::spawn(move || {
+                if let Ok(mut f) = std::fs::OpenOptions::new().write(true).open(&path) {
+                    let sizes = [4096usize, 1, 65536, 333, 100_000, 13];
+                    let (mut pos, mut i) = (0, 0);
+                    while pos < data.len() {
+                        let n = sizes[i % sizes.len()].min(data.len() - pos);
+                        if f.write_all(&data[pos..pos + n]).is_err() {
+                            break;
+                        }
+                        pos += n;
+                        i += 1;
+                    }
+                }
+            }))
+        } else {
+            None
+        };
         let outp = child.wait_with_output().expect("wait bita");
+        if let Some(t) = fifo_writer {
+            // should the process never have opened the pipe, open and drain it here so that the writer cannot block for ever
+            {
+                use std::os::unix::fs::OpenOptionsExt;
+                if let Ok(mut r) = std::fs::OpenOptions::new().read(true).custom_flags(0o4000).open(&fifo) {
+                    let mut sink = vec![0u8; 1 << 16];
+                    for _ in 0..200 {
+                        if t.is_finished() {
+                            break;
+                        }
+                        let _ = std::io::Read::read(&mut r, &mut sink);
+                        std::thread::sleep(std::time::Duration::from_millis(5));
+                    }
+                }
+            }
+            let _ = t.join();
+            let _ = std::fs::remove_file(&fifo);
+        }
         let code = outp.status.code().unwrap_or(-1);
         let res = if code == 0 { "ok" } else if code == 101 { "panic" } else { "err" };
         let arch = std::fs::read(&output).ok();
@@ -573,7 +617,7 @@ pub fn main(args: &[String]) {
         }
         evs.push(first);
         // ---- compress
-        let script: Vec<i64> = if delivery == "pipe" { vec![1, 4096, -1, 7, 100_000] } else { vec![] };
+        let script: Vec<i64> = if delivery == "pipe" || delivery == "fifo" { vec![1, 4096, -1, 7, 100_000] } else { vec![] };
         let (res, arch, left) = if writer == "lib" {
             match rt.block_on(lib_compress(&conf, conf.nbuf, script.clone())) {
                 Ok(a) => ("ok".to_string(), Some(a), vec![]),
